@@ -10,6 +10,9 @@
 //! * evaluation fuel: `eval_tick()` is called per visited statement and per
 //!   loop iteration; past the per-thread limit it panics with
 //!   [`FuelExhausted`]. Enabled per thread with `set_eval_fuel(limit)`.
+//! * call depth: `depth_guard()` counts the nesting of user-defined callables;
+//!   past the per-thread limit it panics with [`FuelExhausted`]. Enabled per
+//!   thread with `set_depth_limit(limit)`.
 
 use std::cell::Cell;
 use std::sync::atomic::{AtomicU32, AtomicUsize, Ordering};
@@ -106,6 +109,55 @@ pub(crate) fn eval_tick() {
         EVAL_LIMIT.with(|c| c.set(0));
         std::panic::panic_any(FuelExhausted("eval"));
     }
+}
+
+thread_local! {
+    static DEPTH_LIMIT: Cell<u32> = const { Cell::new(0) };
+    static DEPTH: Cell<u32> = const { Cell::new(0) };
+    static MAX_DEPTH: Cell<u32> = const { Cell::new(0) };
+}
+
+/// Limit on the nesting depth of user-defined callables (functions, mixins,
+/// content blocks) on this thread; `0` disables. Resets the depth counters.
+pub fn set_depth_limit(limit: u32) {
+    DEPTH_LIMIT.with(|c| c.set(limit));
+    DEPTH.with(|c| c.set(0));
+    MAX_DEPTH.with(|c| c.set(0));
+}
+
+/// Deepest nesting seen on this thread since `set_depth_limit`.
+pub fn max_depth() -> u32 {
+    MAX_DEPTH.with(Cell::get)
+}
+
+#[derive(Debug)]
+pub struct DepthGuard(());
+
+impl Drop for DepthGuard {
+    fn drop(&mut self) {
+        DEPTH.with(|c| c.set(c.get().saturating_sub(1)));
+    }
+}
+
+#[inline]
+pub(crate) fn depth_guard() -> DepthGuard {
+    let d = DEPTH.with(|c| {
+        let d = c.get() + 1;
+        c.set(d);
+        d
+    });
+    MAX_DEPTH.with(|c| {
+        if d > c.get() {
+            c.set(d)
+        }
+    });
+    let limit = DEPTH_LIMIT.with(Cell::get);
+    if limit != 0 && d > limit {
+        DEPTH_LIMIT.with(|c| c.set(0));
+        DEPTH.with(|c| c.set(0));
+        std::panic::panic_any(FuelExhausted("depth"));
+    }
+    DepthGuard(())
 }
 
 /// `AtomicU32` whose every operation is a scheduling point.
